@@ -85,7 +85,7 @@ package oggreader
 //@ func parseVendorString
 //@ props C37
 //@ requires headerMagicLen == 8 && u32Size == 4 && minHeaderLen == 16 && len(payload) >= 16
-//@ ensures err == nil ==> 12 <= ret1 && ret1 + 4 <= len(payload)
+//@ ensures err == nil ==> 12 <= ret1 && ret1 <= len(payload) - 4
 
 //@ func parseSingleUserComment
 //@ props C37
